@@ -12,14 +12,14 @@ COMMON_NOTE = ("Assumes: the hand-written Gallina model equals the code only as 
                "CxxF.v files additionally the standard library's Floats.FloatAxioms and Uint63 specifications of the primitive types). ")
 TECH = "Coq proof over a Gallina model + vm_compute model/implementation correspondence + property monitor"
 SPEC = {
-    "C01": ("Kernel-checked theorems: the model evaluator equals the expected terminal payoff (leaf sum) for every profile; under WFgame + PerfectRecall + ChanceOK (what from_root guarantees, C11) the best-response value is an upper bound over every behavioural deviation and is attained by a pure strategy, so each reported regret is exactly the largest unilateral gain, non-negative, total = max; zero regret iff equilibrium. Correspondence of get_info with the model at binary64 + independent exhaustive best-response oracle as monitor. Round 3: at binary64 itself (Properties/C01F.v, Flocq) the computed utility is finite and within k*2^-52*(S + L*B*2^-1022) of the exact expectation of the same data, which is the real-number model's value.", "7 (C01)", ""),
+    "C01": ("Kernel-checked theorems: the model evaluator equals the expected terminal payoff (leaf sum) for every profile; under WFgame + PerfectRecall + ChanceOK (what from_root guarantees, C11) the best-response value is an upper bound over every behavioural deviation and is attained by a pure strategy, so each reported regret is exactly the largest unilateral gain, non-negative, total = max; zero regret iff equilibrium. Correspondence of get_info with the model at binary64 + independent exhaustive best-response oracle as monitor. Round 3: at binary64 itself (Properties/C01F.v, Flocq) the computed utility is finite and within k*2^-52*(S + L*B*2^-1022) of the exact expectation of the same data, which is the real-number model's value. The best response, both regrets and the exploitability computed at binary64 (BRFloat.v) are finite with an explicit bound under no hypothesis on underflow, and within ops*2^-52*2B of the real-number model's values on the same data when no reach product underflows (decidable checker).", "7 (C01)", ""),
     "C02": ("Kernel-checked CFR theorem on the model: regret decomposition into the model's own cumulative counterfactual regrets, average-strategy realisation under perfect recall, best response (C01): for every accepted game, budget and stop predicate the returned total bound >= true regret of the returned profile, player bounds >= 0, early stop => true regret below the threshold; with C03 the true-regret rate for vanilla; threads by C06. Correspondence of solve(Full, vanilla) + monitor bound >= true regret (get_info and independent exhaustive best response).", "7 (C02)", "Rounding: the theorem is over R; the monitor allows 1e-9 relative slack. "),
     "C03": ("Kernel-checked CFR rate of the returned bounds for EVERY parameter set, oracle, budget and stop predicate: b_pl <= 2*D*N*sqrt(A)/sqrt(T) (regret-matching potential, counterfactual mass <= 1 under perfect recall, increments bounded by the payoff range), every prefix; clause 2 (true regret <= 6*D*N*(sqrt A + 1/sqrt T)/sqrt T) proved for every documented preset: vanilla (via C02), lcfr (weighted decomposition; only b1+b2 dominates there, max(b1,b2) refuted), cfr_plus / dcfr / dcfr_prune (summation by parts over discounted regrets). Correspondence + monitors of both envelopes on adversarial games.", "7 (C03)", "Both clauses are theorems over R; the monitors add the binary64 reading. "),
     "C04": ("PARTIAL. Kernel-checked pathwise facts with every sampling decision universally quantified: the bounds returned by the chance-sampled and external-sampled solvers obey 2*D*N*sqrt(A)/sqrt(T) for every oracle (in range), params, budget, stop predicate, thread target and schedule; one-step unbiasedness of the sampled regret increments (finite expectation over one draw per infoset) when no chance infoset repeats on a path, refuted otherwise. Correspondence under pinned draws + statistical monitor under seeded weight-honouring sampling. Round 3: over whole runs the sampled increments are martingale differences (conditional mean = true counterfactual increment, orthogonal to the past), E[sum sampled] = E[sum true] for every T, and by the second-moment method / Chebyshev the cumulative regret a sampled solver holds for an action is within lambda of the true cumulative counterfactual regret along its own trajectory with probability >= 1 - 4 D^2 T / lambda^2 (both methods).", "7 (C04)", "PARTIAL: the high-probability bound on the TRUE regret of the RETURNED profile and the empirical sentence are decided statistically, not proved (the Chebyshev bounds of round 3 control the cumulative counterfactual regrets along the sampled trajectory, not yet the random averaging weights). Known finding: a chance infoset repeated on one path makes the sampled solvers converge on a different game (listed). "),
     "C05": ("Kernel-checked invariants of the solver model for every method, oracle, parameter set, budget and stop predicate "
             "(every strategy row is a distribution, cum_strat >= 0, returned profile valid, bounds non-negative and None iff no "
             "iteration ran) + correspondence and no-panic/validity monitor over methods x params x budgets x thresholds x thread "
-            "counts incl. the usize::MAX/3 boundary. Round 3: at binary64 itself (C05F.v) avg_strat and regret_match (main branch, uniform and arg-max/min fallbacks) return rows of finite numbers in [0,1] summing to one within (2n+2)*2^-53 when the normaliser is finite.", "7 (C05)",
+            "counts incl. the usize::MAX/3 boundary. Round 3: at binary64 itself (C05F.v) avg_strat and regret_match (main branch, uniform and arg-max/min fallbacks) return rows of finite numbers in [0,1] summing to one within (2n+2)*2^-53 when the normaliser is finite. The whole solve (SolveFloat.v): for Full and Sampled, any oracle and stop predicate, no NaN and no infinity can arise while reg_cap(g,T)*2^e < 2^1024 (the positive counterpart of the listed overflow finding): returned rows finite in [0,1], bounds finite and non-negative, for vanilla, CFR+ and every parameter tuple with discount factors in [0,1] and a non-softmax fallback.", "7 (C05)",
             "Known finding: binary64 overflow at |payoff| ~ 1e308 (listed). OS thread creation and rayon are runtime, not model. "),
     "C06": ("Kernel-checked: the traversal is a pure value plus a list of atomic increments that commute; cut lemma for any antichain; the code's frontier is one for every target; hence the model of the multi-threaded solve (thread_threshold, payoff cache, tasks under ANY permutation schedule per iteration) returns exactly what the single-threaded solve returns, for every target, params, budget, stop predicate. Correspondence implementation(k threads) vs implementation(1 thread) vs model on frontier-adversarial trees with seeded yield points.", "7 (C06)", "Atomics, Mutex and rayon are trusted; equality is over the reals (summation order). "),
     "C07": ("Kernel-checked: chance-sampled multi = single (shared with C06); external-sampled: pass = pure value + commuting increments, unique visit of every active infoset per pass under perfect recall (over workers and cached traversal together: no try_lock collision), cut lemma, frontier antichain, one draw per cell and pass, solve_ext_multi = solve_single for every oracle, target, schedule and reduction order. Correspondence under pinned draws (k threads vs 1 vs model), draw-event monitor.", "7 (C07)", "Atomics, Mutex and rayon are trusted. "),
@@ -29,20 +29,20 @@ SPEC = {
             "Agreement itself is differential (tolerance 1e-8, ill-conditioned cases detected by perturbation and not judged). "),
     "C09": ("Kernel-checked theorem that a thresholded run equals the unthresholded run of budget t* (first iteration whose bound "
             "satisfies the test), for every method/oracle/params/predicate; non-positive and NaN thresholds never stop; "
-            "correspondence with thresholds at, just above and just below every bound of the trajectory.", "7 (C09)", ""),
+            "correspondence with thresholds at, just above and just below every bound of the trajectory. Round 3 (C09F.v, LoopGeneric.v): the same theorem for EVERY number type with no law of arithmetic assumed, hence for the executed binary64 instance; there the test is the strict float comparison and a NaN threshold or NaN bound never stops the run.", "7 (C09)", ""),
     "C10": ("Kernel-checked categorical-sampler specification (index k iff the variate lies in the k-th cumulative interval) and "
             "solver frame properties; observer-mode correspondence: recorded live draws replayed through the model reproduce the "
-            "run and the presented weights; z-test of production sampler frequencies.", "7 (C10)",
+            "run and the presented weights; z-test of production sampler frequencies. Round 3 (C10F.v): the categorical sampler at binary64 itself — index always in range, exact characterisation by the chain of rounded residuals for every input, equal to the cumulative-interval index whenever no subtraction rounds (in particular on the 2^-53 grid of rng.gen::<f64>()), monotone in the variate.", "7 (C10)",
             "rand_distr::WeightedAliasIndex / thread_rng trusted. "),
     "C11": ("Kernel-checked: acceptance <-> declarative contract on node occurrences (over R; completeness and blame for every number type), a rejection names a violated rule, accepted games satisfy WFgame + PerfectRecall (whole history) + ChanceOK, accepted data is finite/positive for every number type incl. binary64. Correspondence on valid and invalid trees + independent Python contract oracle. Round 3: at binary64 itself (C11F.v) the stored chance probabilities are finite numbers in [0,1] for every finite positive weights, overflowing sum or not (repair D14 complete).", "7 (C11)", ""),
-    "C12": ("Kernel-checked invariance theorems: rescaling chance weights, inserting/removing transparent nodes and injective renaming give literally the same from_root result (up to names), hence the same evaluation and the same solve by every method; payoffs x c>0 scale utilities/regrets/bounds with strategies unchanged (fallback weight 0 or +-inf: necessary, counterexample proved), + constant shifts utility only and leaves the solver unchanged, swapping the players mirrors everything; unsampled and chance-sampled methods. Correspondence of original vs transformed presentations through the implementation and the model.", "7 (C12)", "Inexact variants (x3, +constant) are compared at T <= 10 with tolerance 1e-6. "),
+    "C12": ("Kernel-checked invariance theorems: rescaling chance weights, inserting/removing transparent nodes and injective renaming give literally the same from_root result (up to names), hence the same evaluation and the same solve by every method; payoffs x c>0 scale utilities/regrets/bounds with strategies unchanged (fallback weight 0 or +-inf: necessary, counterexample proved), + constant shifts utility only and leaves the solver unchanged, swapping the players mirrors everything; unsampled and chance-sampled methods. Correspondence of original vs transformed presentations through the implementation and the model. Round 3 (C12F.v): at binary64 itself multiplying the payoffs by a power of two is bit-exact for the evaluator and for every number get_info reports, under a decidable range check.", "7 (C12)", "Inexact variants (x3, +constant) are compared at T <= 10 with tolerance 1e-6. "),
     "C13": ("Kernel-checked theorems on the iterator state machines (exact lengths at every prefix, items, round trip) + "
             "correspondence incl. len() before every next(). Round 3: at binary64 itself (C13F.v) the round trip moves every entry by at most (3n+4)*2^-53 relative, keeps zeros and positivity and is the identity on rows whose float sum is exactly one.", "7 (C13)", ""),
     "C14": ("Kernel-checked agreement of the hash-based and scan-based import models for every input + result/ok-iff theorems + "
             "correspondence with an independent oracle. Round 3: at binary64 itself (C14F.v) the imported row is a valid row for every finite non-negative weights that are not all zero, with no hypothesis about overflow (repair D17 complete).", "7 (C14)",
             "Totals that overflow binary64 were a genuine defect (D17), repaired by fix: 2a29992; the model has the same rescaling branch. "),
     "C15": ("Model of the binary's pipeline after text parsing (json/gambit readers, Output assembly) executed against the shipped binary; kernel-checked: the printed numbers are get_info of the printed profile, for constant-sum Gambit files the utilities are each player's own expected payoff on the game as written and add up to the constant, printed strategies are valid rows with every name once. End-to-end monitor: printed strategies re-evaluated on the file-level game by an independent Python evaluator; -m full outputs vs library vs model.", "7 (C15)", "Text parsing (serde_json, gambit-parser), clap and I/O are dependencies, not modelled. "),
-    "C16": ("Kernel-checked clip decision (pruned iff strictly lower regret, printed profile valid for every threshold incl. NaN/inf, never worse) + end-to-end correspondence of the binary with the library and the model over the option space (presets, budgets incl. -t 0, thresholds, threads, routes, formats); kernel-checked agreement of the JSON and Gambit reader models on two encodings of one game.", "7 (C16)", "Option plumbing (clap), route and format equivalences are decided by the differential check, not by a theorem. "),
+    "C16": ("Kernel-checked clip decision (pruned iff strictly lower regret, printed profile valid for every threshold incl. NaN/inf, never worse) + end-to-end correspondence of the binary with the library and the model over the option space (presets, budgets incl. -t 0, thresholds, threads, routes, formats); kernel-checked agreement of the JSON and Gambit reader models on two encodings of one game. Round 3: the option table, the composition reader -> solve -> clip -> output (CliRun.v) and the reader selection flag > extension > content with every documented route printing the same result (CliRoute.v, text parsers universally quantified) are theorems; at binary64 itself (C16F.v) the clip decision is the strict float comparison of the two computed regrets and every printed probability is a finite number in (0,1] for every float threshold.", "7 (C16)", "clap's parsing of the command line and the two text parsers are dependencies: decided by the differential check, universally quantified in the route theorems. "),
     "C17": ("Kernel-checked semantic rejection layer of the reader model (total, a rejection yields no game, not-constant-sum iff the 0.1% rule, duplicate-infosets iff numeric clash or shared name per player with separate name spaces, game error iff from_root refuses) executed against the binary on the same parsed files + corruption stream on the shipped binary (exit status, documented anchors, no output).", "7 (C17)", "PARTIAL: malformed bytes / missing fields / player count are rejected by the dependencies' parsers; that part is a test with generator-computed expectations. "),
     "C18": ("Kernel-checked theorems over the real-number instance of the model of Strategies::truncate (validity for every "
             "threshold incl. NaN/inf via arbitrary predicates, exact support and proportional rescaling, nothing-above branch, "
